@@ -148,7 +148,7 @@ theorem step_stopping_reqFree {s : St} (h : SInv s) (cfg : Cfg) (e : Ev) (hst : 
           · exact reqFree_nil
           · split
             · exact reqFree_nil
-            · exact reqFree_of_bg (BG_andThen (drainDone_bg _ _ _) (fun _ => stopCall_bg _ _ _ _))
+            · exact reqFree_of_bg (BG_andThen (drainDone_bg _ _ _) (fun _ => stopLoop_bg _ _ _ _))
         · exact reqFree_nil
     · exact bad
   | consumerErr cid e =>
@@ -158,8 +158,15 @@ theorem step_stopping_reqFree {s : St} (h : SInv s) (cfg : Cfg) (e : Ev) (hst : 
       · exact reqFree_nil
       · exact reqFree_of_bg (rejoinAfterError_bg _ _ _)
     · exact bad
-  | fire id =>
+  | consumerQuirk cid q =>
     simp only [step]
+    split
+    · exact reqFree_nil
+    · exact bad
+  | fire id hbNext =>
+    simp only [step]
+    split
+    · exact bad
     split
     · exact bad
     · split
@@ -169,7 +176,7 @@ theorem step_stopping_reqFree {s : St} (h : SInv s) (cfg : Cfg) (e : Ev) (hst : 
         · exact (joinAndSync_afterStop (s := { s with timers := s.timers.filter (·.id != id) }) h.stop_needed).2 hst
         · simp only [hst, Bool.true_or, if_true, andThen_snd, List.nil_append]
           split
-          · exact reqFree_of_bg (hbSchedule_bg _ _)
+          · exact reqFree_of_bg (addTimer_bg _ _ _)
           · exact reqFree_nil
   | advance dt =>
     simp only [step]
@@ -220,8 +227,15 @@ theorem step_req_keeps_stopping (cfg : Cfg) (s : St) (e : Ev) :
         · intro _; rfl
         · unfold prepare
           split
-          · intro _; exact ap _
           · intro _; rfl
+          split
+          · intro _; exact ap _
+          · simp only []
+            split
+            · intro _
+              simp only [andThen_fst]
+              rw [ap, (drainDone_ctl _ _ _).2.2.1]; rfl
+            · intro _; rfl
   | joinDone r =>
     simp only [step]
     split
@@ -292,7 +306,7 @@ theorem step_req_keeps_stopping (cfg : Cfg) (s : St) (e : Ev) :
           · intro _; rfl
           · split
             · intro _; rfl
-            · exact vac (reqFree_of_bg (BG_andThen (drainDone_bg _ _ _) (fun _ => stopCall_bg _ _ _ _)))
+            · exact vac (reqFree_of_bg (BG_andThen (drainDone_bg _ _ _) (fun _ => stopLoop_bg _ _ _ _)))
         · intro _; rfl
     · intro _; rfl
   | consumerErr cid e =>
@@ -302,8 +316,13 @@ theorem step_req_keeps_stopping (cfg : Cfg) (s : St) (e : Ev) :
       · intro _; rfl
       · exact vac (reqFree_of_bg (rejoinAfterError_bg _ _ _))
     · intro _; rfl
-  | fire id =>
+  | consumerQuirk cid q =>
     simp only [step]
+    split <;> (intro _; rfl)
+  | fire id hbNext =>
+    simp only [step]
+    split
+    · intro _; rfl
     split
     · intro _; rfl
     · split
